@@ -29,7 +29,8 @@ def cases(tier, seed):
                 break
         out.append({'prop': ID, 'seed': seed, 'idx': i, 'family': fam, 'large': i % 20 == 7, 'tier': tier})
     out.sort(key=lambda c: not c['large'])
-    return out
+    from ..witness import WITNESSES
+    return [{'prop': ID, 'seed': seed, 'idx': 10 ** 6 + i, 'witness': i} for i in range(len(WITNESSES))] + out
 
 
 def run_large(case):
